@@ -286,9 +286,13 @@ func hostileRequest(c *worker.Ctx, i int) reqSpec {
 
 func runC08(c *worker.Ctx) {
 	res := c.Res
-	workload := c.T.Draw(8)
+	workload := c.T.Draw(9)
 	if v := os.Getenv("FALCOSIM_C08_WORKLOAD"); v != "" { // debugging aid: force one workload family
 		fmt.Sscanf(v, "%d", &workload)
+	}
+	if workload == 8 {
+		runTesterWorkload(c)
+		return
 	}
 	var vcl, wdesc string
 	var modules map[string]string
